@@ -327,6 +327,10 @@ func runC16(r *hx.Result, cfg hx.Config) {
 		runArgFuzz(r, cfg, rng)
 		return
 	}
+	if os.Getenv("VERIF_C16_ONLY") == "live" { // replay aid: only the live hand-over sweep
+		runLiveHandover(r, cfg, rand.New(rand.NewSource(cfg.Seed^0x16)))
+		return
+	}
 
 	// ---- A1. the tile38-level parser and the sniff against the model (pinned entry point: rc 0) ----
 	packets := append([]string{}, respgen.Corpus...)
@@ -589,6 +593,9 @@ func runC16(r *hx.Result, cfg hx.Config) {
 	// ---- B2. socket read size vs pipeline buffer: source constants, exact-length bursts ----
 	checkReadSizes(r, drv)
 	runBursts(r, cfg)
+
+	// ---- B3. across the hand-over to live mode: SUBSCRIBE / PSUBSCRIBE / live FENCE followed by commands, every cut ----
+	runLiveHandover(r, cfg, rand.New(rand.NewSource(cfg.Seed^0x16)))
 
 	// ---- D. argument-level malformed stream (well-framed commands, hostile arguments) ----
 	runArgFuzz(r, cfg, rng)
